@@ -62,8 +62,34 @@ def check_implicit_arrangement(run_, it):
     it.explore(h, "ImplicitLeapfrogArrangement")
 
 
+def lemma_composition(run_):
+    """`a step is a composition of component maps` + `every component map is symplectic` => `the step is symplectic`: the closure properties of the
+    symplectic group, for ALL phase-space dimensions, by rewriting in the typed non-commutative algebra (Engine D): with J1^T W J1 = W and J2^T W J2 = W
+    (W the canonical form, any invertible matrix here)  (J2 J1)^T W (J2 J1) = W,  and  (J^-1)^T W J^-1 = W  (shown as J^T [(J^-1)^T W J^-1] J = J^T W J)."""
+    import sympy as sp
+    from .. import ncalg
+    from ..ncalg import Base, Poly
+    d = sp.Symbol("d", integer=True, positive=True)  # phase-space dimension 2n
+    dims = [{d: 4}, {d: 6}]
+    ncalg.reset()
+    W = Poly.atom(Base("W", d, d, inv=True))
+    J1b, J2b = Base("J1", d, d, inv=True), Base("J2", d, d, inv=True)
+    J1, J2 = Poly.atom(J1b), Poly.atom(J2b)
+    for Jb in (J1b, J2b):
+        ncalg.add_rule((ncalg.occ(Jb, True), ncalg.occ(W.single()[0][0][0]), ncalg.occ(Jb)), W)
+    comp = J2 * J1
+    st = ncalg.decide_equal(comp.T() * W * comp, W, dims)
+    run_.ob("lemma/composition-of-symplectic-maps-is-symplectic", {"discharged": core.DISCHARGED, "failed": core.FAILED, "unknown": core.UNKNOWN}[st[0]], st[1], detail=st[2],
+            text="for all dimensions: J1^T W J1 = W and J2^T W J2 = W imply (J2 J1)^T W (J2 J1) = W (steps are compositions of the component maps proved symplectic above)")
+    Ji = ncalg.inverse(J1)
+    st = ncalg.decide_equal(J1.T() * (Ji.T() * W * Ji) * J1, J1.T() * W * J1, dims)
+    run_.ob("lemma/inverse-of-a-symplectic-map-is-symplectic", {"discharged": core.DISCHARGED, "failed": core.FAILED, "unknown": core.UNKNOWN}[st[0]], st[1], detail=st[2],
+            text="for all dimensions: J^T W J = W implies (J^-1)^T W J^-1 = W (adjoint sub-steps = inverses of the forward sub-step with negated time)")
+
+
 def run(run_, tier):
-    run_.assume("A9 (cited, not proved): compositions of symplectic maps are symplectic; generalised leapfrog / implicit midpoint are symplectic partitioned Runge-Kutta methods; "
+    lemma_composition(run_)
+    run_.assume("A9 (cited, not proved; the group-closure part -- composition and inverse -- is now the discharged lemma above): the implicit symplectic-Euler sub-maps of generalised leapfrog / implicit midpoint are symplectic; "
                 "RATTLE-type projection steps are symplectic on the cotangent bundle of the constraint manifold")
     run_.assume("A4 smooth user functions with exact derivative functions (Hessians symmetric); A1 reals; dimension 2")
     for k, v in symla.SHIM_TABLE.items():
